@@ -28,7 +28,7 @@ void verif_throw(void) {}
 #define PARAMS int i, int j, int scale, int init0, int upto0, int rep, double nbv0, double v1, double v2, long long tag, \
    double* dbuf, double* vec1, double* vec2, int* out
 
-#define ASSIGNS_ALL g_seq, __CPROVER_object_whole(GI), __CPROVER_object_whole(GL), __CPROVER_object_whole(GLV), \
+#define ASSIGNS_ALL g_seq, g_eq_calls, g_eq_res, __CPROVER_object_whole(GI), __CPROVER_object_whole(GL), __CPROVER_object_whole(GLV), \
    __CPROVER_object_whole(GLP), g_tag, __CPROVER_object_whole(GS0), __CPROVER_object_whole(GS1), __CPROVER_object_whole(GS2), \
    __CPROVER_object_whole(GS3), __CPROVER_object_whole(GD0), __CPROVER_object_whole(GD1), __CPROVER_object_whole(GD2), \
    __CPROVER_object_whole(GD3), __CPROVER_object_whole(GB), __CPROVER_object_whole(GPV), __CPROVER_object_whole(dbuf), \
@@ -42,13 +42,15 @@ void verif_throw(void) {}
    __CPROVER_requires(FINITE(v1) && FINITE(v2) && FINITE(nbv0) && FINITE(g_img1) && FINITE(g_img2)) \
    __CPROVER_requires(__CPROVER_is_fresh(dbuf, NSEG * CAP * sizeof(double)) && __CPROVER_is_fresh(vec1, CAP * sizeof(double))) \
    __CPROVER_requires(__CPROVER_is_fresh(vec2, CAP * sizeof(double)) && __CPROVER_is_fresh(out, 4 * sizeof(int))) \
-   __CPROVER_requires(g_seq == 0 && g_lp_calls == 0 && g_force_calls == 0 && g_uninit_calls == 0) \
+   __CPROVER_requires(g_eq_calls == 0 && g_seq == 0 && g_lp_calls == 0 && g_force_calls == 0 && g_uninit_calls == 0) \
    __CPROVER_requires(Z4(GL_calls, 0) && Z4(GL_calls, 4) && Z4(GL_calls, 8) && Z4(GL_calls, 12) && Z4(GL_calls, 16) && GL_calls(20) == 0 && GL_calls(21) == 0) \
    __CPROVER_requires(GS0[0] == 0 && GS1[0] == 0 && GS2[0] == 0 && GS3[0] == 0 && GS0[2] == 0 && GS1[2] == 0 && GS2[2] == 0 && GS3[2] == 0) \
    __CPROVER_requires(GB_calls(B_row) == 0 && GB_calls(B_col) == 0 && GB_calls(B_elem) == 0)
 /* frame: an arbitrary cell (segment g_a, index g_k) of the LP model's storage */
 #define CELL (dbuf[g_a * CAP + g_k])
 #define REQ_FRAME __CPROVER_requires(0 <= g_a && g_a < 8 && 0 <= g_k && g_k < CAP && v_old == CELL && FINITE(v_old))
+/* vector instances: the entries at the ghost index are finite numbers (arguments and the arbitrary scaling images) */
+#define REQ_VEC __CPROVER_requires(FINITE(vec1[g_k]) && FINITE(vec2[g_k]) && FINITE(SEG(8)[g_k]) && FINITE(SEG(9)[g_k]) && FINITE(SEG(10)[g_k]) && FINITE(SEG(11)[g_k]))
 #define TOUCHED(a, idx) ((g_a == (a) || g_a == 4 + (a)) && g_k == (idx))
 #define NO_HOOKS (GB_calls(B_row) == 0 && GB_calls(B_col) == 0 && GB_calls(B_elem) == 0)
 #define NO_STATUS (GS0[0] == 0 && GS1[0] == 0 && GS2[0] == 0 && GS3[0] == 0)
@@ -110,7 +112,8 @@ __CPROVER_ensures(TOUCHED(A_low, i) || TOUCHED(A_up, i) || CELL == v_old)
 #ifdef KIND_range_i
 /* changeRange(int i, const R& newLhs, const R& newRhs, bool scale): BOTH sides are always forwarded, with the flag.
  * VALUE_DOMAIN: the arguments for which the right-hand side handed to the LP is claimed to be newRhs itself
- * (instance changeRange_i: newLhs == newRhs or |newLhs - newRhs| > epsilon; instance changeRange_i_exactrhs: all) */
+ * (instance changeRange_i: newLhs == newRhs, or the tolerance comparison EQ(newLhs, newRhs, epsilon) - real body - was not
+ * consulted or said 'different', i.e. |newLhs - newRhs| > epsilon; instance changeRange_i_exactrhs: all arguments) */
 void w_sc(PARAMS)
 REQ_STATE
 REQ_FRAME
@@ -209,6 +212,7 @@ __CPROVER_ensures(NO_STATUS && NO_HOOKS && CELL == v_old)
 void w_sc(PARAMS)
 REQ_STATE
 REQ_FRAME
+REQ_VEC
 __CPROVER_assigns(ASSIGNS_ALL)
 __CPROVER_ensures(!INR(g_k, DIM1) || (scale ? GPV[4 + ATTR] : GPV[ATTR])[g_k] == vec1[g_k])
 __CPROVER_ensures(g_lp_calls == 1 && LP_GOT_V(LMV, vec1) && RECOMP_FORCED)
@@ -224,6 +228,7 @@ __CPROVER_ensures(NO_HOOKS && CELL == v_old)
 void w_sc(PARAMS)
 REQ_STATE
 REQ_FRAME
+REQ_VEC
 __CPROVER_assigns(ASSIGNS_ALL)
 __CPROVER_ensures(!INR(g_k, DIM1) || ((scale ? GPV[4 + A1] : GPV[A1])[g_k] == vec1[g_k] && (scale ? GPV[4 + A2] : GPV[A2])[g_k] == vec2[g_k]))
 __CPROVER_ensures(g_lp_calls == 2 && LP_GOT_V(LMV1, vec1) && LP_GOT_V(LMV2, vec2) && RECOMP_FORCED)
